@@ -59,3 +59,13 @@ prop("C15", module="MW.Props.C15", title="oracle rates",
      state_keys=["state"], pure=["decimal_from_ratio"],
      weights={"stake": 20, "submit": 10, "withdraw": 10, "rewards": 10, "resume": 6, "update_config": 5},
      assumptions=["Decimal::from_ratio / Display of cosmwasm-std are as modelled (compared on every posted payload and by the pure differential)"])
+
+prop("C12", module="MW.Props.C12", title="two-step seven-day handover (both contracts)",
+     variants=["transfer_ownership", "accept_ownership", "revoke_ownership_transfer"],
+     state_keys=["admin", "pending_owner", "owner_min_time"], extra=["treasury"],
+     weights={"ownership": 40, "advance": 25, "unauthorized": 10, "stake": 4},
+     assumptions=["Api::addr_validate is the protocol chain's bech32 check (modelled); block time < 2^63 ns"])
+
+prop("C13", module="MW.Props.C13", title="treasury swaps and spending", skip_staking=True, extra=["treasury"],
+     variants=[], state_keys=["config", "admin"], pure=["treasury_validate_address"],
+     assumptions=["the treasury hard-codes the prefixes osmo / celestia (as the code does)"])
